@@ -136,10 +136,11 @@ def worker_main(jobfile):
         print(f"START {jid}", flush=True)
         try:
             img = np.load(os.path.join(d, job['img']))
-            fn = os.path.join(d, f"in_{jid}.fits")
+            # a history job re-uses one file name (rewritten with new content) and one output base
+            fn = os.path.join(d, job.get('fname') or f"in_{jid}.fits")
             _make_fits(job, img, fn)
             grab.got = {}
-            base = os.path.join(d, f"out_{jid}") if job['via'] in ('files', 'compressed', 'cli') else None
+            base = os.path.join(d, job.get('oname') or f"out_{jid}") if job['via'] in ('files', 'compressed', 'cli') else None
             gy, gx = job['grid']
             bY, bX = job['box']
             if job['via'] == 'cli':
@@ -155,10 +156,15 @@ def worker_main(jobfile):
                 res['rc'] = rc
                 out = None
             else:
-                out = BANE.filter_image(fn, base, step_size=(gy, gx), box_size=(bY, bX), cores=job['cores'],
+                # caller-owned argument objects (lists for odd ids, tuples otherwise) must come back unchanged
+                ss = [gy, gx] if jid % 2 else (gy, gx)
+                bs = [bY, bX] if jid % 2 else (bY, bX)
+                out = BANE.filter_image(fn, base, step_size=ss, box_size=bs, cores=job['cores'],
                                         nslice=job['nslice'], mask=job['mask'],
                                         compressed=(job['via'] in ('compressed', 'memcomp')),
                                         cube_index=job.get('cube_index', 0))
+                if list(ss) != [gy, gx] or list(bs) != [bY, bX]:
+                    res['mutated_args'] = f"step_size {ss}, box_size {bs} after the call; passed {[gy, gx]}, {[bY, bX]}"
                 if out is None:
                     res['status'] = 'returned-none'
             if out is not None:
@@ -208,7 +214,7 @@ def predict_layout(R, nslice, step1):
 
 
 def mkjob(ctx, img, grid, box, nslice=1, mask=True, variant='2d', dtype='f4', via='mem', cube_index=0, n3=3,
-          bscale=1.0, tag='', bscale_key=False):
+          bscale=1.0, tag='', bscale_key=False, fname=None, oname=None):
     """job dict for the real code; cores chosen so that realised stripes <= cores"""
     _counter[0] += 1
     jid = _counter[0]
@@ -221,7 +227,7 @@ def mkjob(ctx, img, grid, box, nslice=1, mask=True, variant='2d', dtype='f4', vi
     np.save(os.path.join(ctx.tmpdir(), name), img)
     return dict(id=jid, img=name, grid=list(grid), box=list(box), nslice=nslice, cores=cores, mask=bool(mask),
                 variant=variant, dtype=dtype, via=via, cube_index=cube_index, n3=n3, bscale=bscale, tag=tag,
-                bscale_key=bool(bscale_key), predicted=lay, _img=img)
+                bscale_key=bool(bscale_key), fname=fname, oname=oname, predicted=lay, _img=img)
 
 
 class Hang(Exception):
@@ -329,7 +335,8 @@ def run_jobs(ctx, jobs):
                 if os.path.exists(f):
                     r[w] = np.load(f)
                     os.unlink(f)
-            for f in (f"in_{j['id']}.fits", f"out_{j['id']}_bkg.fits", f"out_{j['id']}_rms.fits", j['img']):
+            for f in (f"in_{j['id']}.fits", f"out_{j['id']}_bkg.fits", f"out_{j['id']}_rms.fits", j['img'],
+                      j.get('fname') or '', (j.get('oname') or 'none') + '_bkg.fits', (j.get('oname') or 'none') + '_rms.fits'):
                 try:
                     os.unlink(os.path.join(d, f))
                 except OSError:
@@ -542,6 +549,9 @@ def spec_single(ctx, job, res):
         return False
     stripes = res.get('stripes') or job['predicted']
     job['_stripes'] = stripes
+    if res.get('mutated_args'):
+        ctx.fail('spec', case_of(job), f"filter_image modified its caller's arguments: {res['mutated_args']}", sig('argument-mutated', job))
+        ok = False
     # shape
     if bkg.shape != (R, C) or rms.shape != (R, C):
         ctx.fail('spec', case_of(job), f"map shapes {bkg.shape}/{rms.shape} for an image of shape {(R, C)}", sig('shape', job))
@@ -1021,6 +1031,96 @@ def option_matrix(ctx):
     return jobs, feats
 
 
+# ---------- histories: one long-lived process, one file name rewritten between calls --------------------------
+
+def history_steps(ctx):
+    """two histories (through filter_image and through CLI.BANE.main), each on ONE reused input name and ONE reused
+    output base: plain 2-D -> BSCALE=0.5 constant -> BSCALE=-4 -> 3-D without BSCALE -> 2-D BSCALE=2 other shape ->
+    4-D BSCALE=1 -> plain 2-D again; shapes, stripes and output paths change along the way"""
+    g = np_rng(ctx)
+    rng = ctx.rng
+    plan = [
+        dict(shape=(16, 12), variant='2d', bscale=1.0, key=False, const=False),
+        dict(shape=(16, 12), variant='2d', bscale=0.5, key=False, const=True),
+        dict(shape=(16, 12), variant='2d', bscale=-4.0, key=False, const=False),
+        dict(shape=(20, 10), variant='3d', bscale=1.0, key=False, const=False),
+        dict(shape=(12, 18), variant='2d', bscale=2.0, key=False, const=False),
+        dict(shape=(12, 18), variant='4d', bscale=1.0, key=True, const=False),
+        dict(shape=(14, 14), variant='2d', bscale=1.0, key=False, const=False),
+        dict(shape=(14, 14), variant='2d', bscale=rng.choice([4.0, 0.25, -2.0]), key=False, const=False),
+    ]
+    out = []
+    for api in ('filter_image', 'cli'):
+        steps = []
+        for k, st in enumerate(plan):
+            R, C = st['shape']
+            img = np.full((R, C), rng.choice([6.0, -3.5, 100.0])) if st['const'] else \
+                lattice_noise(g, R, C) + rng.choice([0.0, 100.0, -37.5])
+            kw = dict(n3=2, cube_index=1) if st['variant'] != '2d' else {}
+            via = 'cli' if api == 'cli' else ('mem', 'files', 'compressed', 'memcomp')[(k + rng.randrange(4)) % 4]
+            steps.append(dict(img=img, grid=(4, 4), box=(8, 6), nslice=1 + (k + (api == 'cli')) % 2, variant=st['variant'],
+                              dtype=('f4', 'f8')[k % 2], via=via, bscale=st['bscale'], bscale_key=st['key'], kw=kw))
+        out.append((api, steps))
+    return out
+
+
+def run_history(ctx, api, steps, with_model=True):
+    """run `steps` in ONE child process on one reused file name, and each step's content again on a fresh name in
+    fresh processes; the history run must be bit-identical to the fresh run and obey the Spec by itself"""
+    tagname = 'work.fits' if api != 'cli' else 'work_cli.fits'
+    oname = 'work_out' if api != 'cli' else 'work_cli_out'
+    hist, fresh = [], []
+    for k, st in enumerate(steps):
+        common_kw = dict(nslice=st['nslice'], mask=True, variant=st['variant'], dtype=st['dtype'], via=st['via'],
+                         bscale=st['bscale'], bscale_key=st['bscale_key'], **st['kw'])
+        hist.append(mkjob(ctx, st['img'], st['grid'], st['box'], tag=f"history[{api}] step {k}", fname=tagname, oname=oname,
+                          **common_kw))
+        fresh.append(mkjob(ctx, st['img'], st['grid'], st['box'], tag=f"fresh twin of history[{api}] step {k}", **common_kw))
+    rh = run_jobs(ctx, hist)                       # one chunk = one process, in order
+    # the twins: fresh file names, a different process from the history (in thorough: one fresh process each)
+    rf = {}
+    if ctx.quick:
+        rf = run_jobs(ctx, fresh)
+    else:
+        for f in fresh:
+            rf.update(run_jobs(ctx, [f]))
+    site = 'AegeanTools/BANE.py:filter_image' if api != 'cli' else 'AegeanTools/CLI/BANE.py:main'
+    okjobs = []
+    for k, (h, f) in enumerate(zip(hist, fresh)):
+        r1, r2 = rh.get(h['id']), rf.get(f['id'])
+        ctx.count('history-step')
+        ctx.case(dict(op='history', api=api, step=k, variant=h['variant'], bscale=h['bscale'], via=h['via'],
+                      shape=list(h['_img'].shape)), nontrivial_key=('history', api, k, ctx.seed))
+        if not r1 or not r2 or 'hang' in (r1.get('status'), r2.get('status')):
+            continue
+        hcase = dict(op='history', api=api, failing_step=k,
+                     steps=[case_of(j) for j in hist[:k + 1]])
+        good = spec_single(ctx, h, r1)
+        spec_single(ctx, f, r2)
+        if r1.get('status') == 'ok':
+            okjobs.append(h)
+        if r1.get('status') != r2.get('status'):
+            ctx.fail('spec', hcase, f"step {k} of a history on one reused file name ends with status {r1.get('status')} "
+                     f"({r1.get('error', '')}) but the same content on a fresh name in a fresh process with {r2.get('status')}",
+                     dict(what='history-dependence', site=site))
+            continue
+        for w in ('bkg', 'rms', 'file_bkg', 'file_rms'):
+            if (w in r1) != (w in r2) or (w in r1 and not np.array_equal(r1[w], r2[w], equal_nan=True)):
+                a, b = r1.get(w), r2.get(w)
+                det = ''
+                if a is not None and b is not None and a.shape == b.shape:
+                    idx = tuple(int(i) for i in np.argwhere(~((a == b) | (np.isnan(a) & np.isnan(b))))[0])
+                    det = f": at {idx} {a[idx]!r} (history) vs {b[idx]!r} (fresh)"
+                prev = hist[k - 1] if k else None
+                ctx.fail('spec', hcase, f"{w} of step {k} ({h['variant']}, BSCALE {h['bscale'] if (h['bscale'] != 1.0 or h['bscale_key']) else 'absent'}, "
+                         f"shape {h['_img'].shape}) depends on the earlier calls in the same process"
+                         + (f" (previous content: {prev['variant']}, BSCALE {prev['bscale']}, shape {prev['_img'].shape})" if prev else '')
+                         + det, dict(what='history-dependence', site=site))
+                break
+    if with_model:
+        correspond(ctx, okjobs, rh, [{}] * len(okjobs))
+
+
 # ---------- top level ------------------------------------------------------------------------------------
 
 def evaluate(ctx, jobs, feats, with_model=True, meta_fraction=0.0):
@@ -1096,6 +1196,8 @@ def run(ctx):
     evaluate(ctx, cj, cf, with_model=True, meta_fraction=1.0)
     mj, mf = option_matrix(ctx)
     evaluate(ctx, mj, mf, with_model=True, meta_fraction=1.0)
+    for api, steps in history_steps(ctx):
+        run_history(ctx, api, steps)
     clip_cases(ctx, 150 if ctx.quick else 1500)
     n = 70 if ctx.quick else 600
     done = 0
@@ -1127,6 +1229,14 @@ def search(ctx):
 def replay(ctx, rec):
     common.use_repo()
     c = rec['case']
+    if c.get('op') == 'history':
+        steps = []
+        for sc in c['steps']:
+            kw = dict(n3=sc.get('n3', 3), cube_index=sc['cube_index'])
+            steps.append(dict(img=img_from_case(sc), grid=sc['grid'], box=sc['box'], nslice=sc['nslice'], variant=sc['variant'],
+                              dtype=sc['dtype'], via=sc['via'], bscale=sc['bscale'], bscale_key=sc.get('bscale_key', False), kw=kw))
+        run_history(ctx, c['api'], steps, with_model=ctx.driver_ok)
+        return
     if c.get('op') == 'sigmaclip':
         from AegeanTools import BANE
         import warnings
